@@ -17,6 +17,7 @@ import sys
 import time
 import traceback
 from collections import Counter
+from . import cov as covmod
 
 VERIF = os.path.dirname(os.path.dirname(os.path.abspath(__file__)))
 
@@ -134,6 +135,7 @@ def run_shard(args):
     from hypothesis import given, settings, HealthCheck, Phase
     mod = importlib.import_module('vlib.props.' + pid.lower())
     known = load_known(pid)
+    covmod.start()
     stats = Stats()
     found = {}
     excluded = set()
@@ -231,6 +233,7 @@ def run_shard(args):
         conv.cleanup()
     except Exception:
         pass
+    covmod.dump('%s-shard%d' % (pid, shard))
     return stats, found
 
 
@@ -340,6 +343,7 @@ def main(argv=None):
     max_rounds = budget.get('max_rounds', 4)
     total = Stats()
     found = {}
+    covmod.start()
     # 1. replay tier
     try:
         found.update(run_regress(pid, mod, total))
@@ -379,6 +383,7 @@ def main(argv=None):
             for b, v in fnd.items():
                 found.setdefault(b, v)
     wall = time.time() - t0
+    covmod.dump('%s-main' % pid)
     if total.harness_error:
         print('HARNESS ERROR in %s:\n%s' % (pid, total.harness_error))
         return 2
